@@ -126,6 +126,34 @@ theorem multinomial_lt_length (probs : List α) (u : α) (hne : probs ≠ []) :
   rw [List.length_dropLast] at h1
   omega
 
+theorem cum_succ_sub (l : List α) (k : Nat) (hk : k < l.length) :
+    cum l (k + 1) - cum l k = l[k] := by
+  unfold cum
+  rw [List.take_succ_eq_append_getElem hk, List.sum_append]
+  simp
+
+/-- **the `k`-th interval has length `p_k`**: so a uniform variate selects index `k` with
+probability `p_k` (all but the last index) -/
+theorem multinomial_interval_length (probs : List α) (k : Nat) (hk : k < probs.dropLast.length) :
+    cum probs.dropLast (k + 1) - cum probs.dropLast k = probs.getD k 0 := by
+  rw [cum_succ_sub _ _ hk]
+  have hk' : k < probs.length := by
+    rw [List.length_dropLast] at hk; omega
+  rw [List.getElem_dropLast]
+  simp [List.getD_eq_getElem?_getD, hk']
+
+/-- the last index gets the rest of `[0, 1)`, which has length `p_last` when the weights sum to
+one -/
+theorem multinomial_last_length (probs : List α) (hne : probs ≠ []) (hsum : probs.sum = 1) :
+    1 - cum probs.dropLast probs.dropLast.length = probs.getLast hne := by
+  unfold cum
+  rw [List.take_length]
+  have := List.dropLast_append_getLast hne
+  have h2 : probs.sum = probs.dropLast.sum + probs.getLast hne := by
+    conv_lhs => rw [← this]
+    simp
+  linarith
+
 /-- non-vacuity: weights `[1/4, 1/2, 1/4]`, variate `1/2` lies in `(1/4, 3/4]` -/
 example : multinomialSample ([1/4, 1/2, 1/4] : List ℚ) (1/2) = 1 := by
   norm_num [multinomialSample, multinomialSample.go, List.dropLast]
